@@ -446,8 +446,10 @@ Definition step_thread (s : st) (t : nat) (th : thread) (o : op) : option st :=
     else Some (upd (with_next s role (try_deal_n_next_index_excl (seg_i l) (Z.of_nat (seg_n l)))) t
                    (goto_lc th FenceA (add_tk l)))
   | TnIdx =>
+    (* the tail of try_pop_n_exclusively_until: nothing but "return try_pop_n<false,...>(callback, num)" -
+       until_try_num is regenerated from that tail, and no blocking pop_n may appear there *)
     let i := next_of s role in
-    let '((i1, n1), r) := split o (mask s) i (Z.of_nat (onum o)) in
+    let '((i1, n1), r) := split o (mask s) i (until_try_num (Z.of_nat (onum o))) in
     let l1 := set_seg l i1 n1 r in
     Some (upd s t (goto_lc th (if Nat.ltb 0 n1 then TnVer 0 else TnCas) l1))
   end.
